@@ -39,7 +39,9 @@ def matrix():
     return out
 
 
-def run_one(cfg, seed, n):
+def run_one(cfg, seed, n, dup=None):
+    """dup: None | "copy" (every observation delivered twice, as two equal dicts) | "same" (twice, the same dict object):
+    results must not depend on object identities"""
     from ixai.explainer import IncrementalSage, IncrementalPFI, BatchSage, IntervalSage
     from ixai.storage import (UniformReservoirStorage, GeometricReservoirStorage, IntervalStorage, BatchStorage, TreeStorage)
     from ixai.imputer import MarginalImputer, TreeImputer
@@ -123,10 +125,15 @@ def run_one(cfg, seed, n):
         ex = IntervalSage(model, names, loss, n_inner_samples=1, interval_length=3, storage_length=4)
     data = random.Random(seed * 31 + 5)      # the stream itself comes from a private generator
     out = []
-    for t in range(n):
-        c1 = data.choice([0, 1, 2])
-        x = {"c1": c1, "n1": 10.0 * c1 + data.gauss(0, 1), "n2": data.gauss(0, 2)}
-        y = data.choice([0, 1, 2])
+    x_prev = None
+    for t in range(n * (2 if dup else 1)):
+        if dup and t % 2 == 1:
+            x = x_prev if dup == "same" else dict(x_prev)
+        else:
+            c1 = data.choice([0, 1, 2])
+            x = {"c1": c1, "n1": 10.0 * c1 + data.gauss(0, 1), "n2": data.gauss(0, 2)}
+            y = data.choice([0, 1, 2])
+        x_prev = x
         if wrapped == "pfi_river_proba_metric":
             y = ["low", "mid", "high"][y]
         if cls == "batch":
@@ -186,7 +193,7 @@ if __name__ == "__main__":
     res = {}
     for cfg in matrix():
         try:
-            res["|".join(map(str, cfg))] = run_one(cfg, seed, n)
+            res["|".join(map(str, cfg))] = run_one(cfg, seed, n, dup={"dupcopy": "copy", "dupsame": "same"}.get(variant))
         except Exception as e:
             res["|".join(map(str, cfg))] = "raised %s: %s" % (type(e).__name__, str(e)[:120])
     with open(path, "w") as f:
